@@ -663,3 +663,17 @@ Lemma C03_len_nothing_aligned :
   match_len [] len0_pat len0_node = LenNone.
 Proof. repeat split; vm_compute; reflexivity. Qed.
 Print Assumptions C03_len_nothing_aligned.
+
+(* a hole marked as named never accepts an unnamed node — whatever the environment already holds for the
+   variable (a back-reference is no exception: the guard comes before the look-up) *)
+Lemma named_hole_binds_named_any_env : forall src name c e e',
+  match_leaf_meta_var src (Capture name true) c e = Some e' -> named c = true.
+Proof.
+  intros src name c e e'. unfold match_leaf_meta_var. destruct (named c); [reflexivity | cbn; discriminate].
+Qed.
+
+Lemma named_dropped_hole_binds_named : forall src c e e',
+  match_leaf_meta_var src (Dropped true) c e = Some e' -> named c = true.
+Proof.
+  intros src c e e'. unfold match_leaf_meta_var. destruct (named c); [reflexivity | cbn; discriminate].
+Qed.
